@@ -154,6 +154,10 @@ func (ei *resourceInformer) createSharedInformer() error {
 
 // Snapshot returns all cached objects for this informer
 func (ei *resourceInformer) getCachedObjects() []kemtypes.ObjectAndFilterResult {
+	// Copy the cache and reset the buffer in one critical section: an event that is
+	// buffered between the copy and the reset would be dropped although the copy
+	// does not reflect it.
+	ei.eventBufLock.Lock()
 	ei.cacheLock.RLock()
 	res := make([]kemtypes.ObjectAndFilterResult, 0)
 	for _, obj := range ei.cachedObjects {
@@ -162,7 +166,6 @@ func (ei *resourceInformer) getCachedObjects() []kemtypes.ObjectAndFilterResult 
 	ei.cacheLock.RUnlock()
 
 	// Reset eventBuf if needed.
-	ei.eventBufLock.Lock()
 	if !ei.eventCbEnabled {
 		ei.eventBuf = nil
 	}
